@@ -69,7 +69,7 @@ def evaluate(cand: Path, run_suite: bool = True, all_props: bool = True) -> dict
             return res
         env = dict(os.environ, PYTHONDONTWRITEBYTECODE='1')
         for label, root in (('clean', clean), ('patched', patched)):
-            e = dict(env, FSIC_SRC=str(root))
+            e = dict(env, FSIC_SRC=str(root), PYTHONPATH=str(root))
             c, o = sh(['/venv/bin/python', str(demo)], cwd=str(root), env=e, timeout=600)
             res[f'demo_{label}'] = c
             if label == 'patched':
